@@ -15,7 +15,7 @@ ID = "C13"
 META = {
     "technique": "runtime monitoring: accept/reject post-condition wrapper on every BaseEVSE.set_pilot call, membership decided in exact rationals; advertised limits fed back to set_pilot",
     "design_ref": "DESIGN.md section 6 C13",
-    "level_text": "exploration: every set_pilot call of the workload (1e5 quick / 1e7 thorough boundary-focused pilots over all EVSE classes and parameters, with and without a connected EV) is judged against an exact-rational membership oracle; every value advertised by the EVSE, the network cache and the Interface is applied and must be accepted, also after a JSON round trip; NaN/+inf/-inf pilots, astronomically large and tiny levels, lists of thousands of levels, advertised limits compared with the station's own; station limits compared with the set the station was built from; ranges 0..0, degenerate, bidirectional; ChargingNetwork.plugin on a space whose occupant is satisfied",
+    "level_text": "exploration: every set_pilot call of the workload (1e5 quick / 1e7 thorough boundary-focused pilots over all EVSE classes and parameters, with and without a connected EV) is judged against an exact-rational membership oracle; every value advertised by the EVSE, the network cache and the Interface is applied and must be accepted, also after a JSON round trip; NaN/+inf/-inf pilots, astronomically large and tiny levels, lists of thousands of levels, advertised limits compared with the station's own; station limits compared with the set the station was built from; ranges 0..0, degenerate, bidirectional; ChargingNetwork.plugin on a space whose occupant is satisfied; a rejection in the middle of a network batch; finite-rate stations re-rated through the public attribute",
     "level_note": "pilots whose exact distance from an acceptance boundary is below 1e-9 A are counted, not judged (the code adds the tolerance in floating point); rejection side effects observed through public attributes and a fresh JSON dump of the EV",
 }
 LEVEL = "exploration"
